@@ -292,3 +292,126 @@ def calls_keep_their_rule(a, rule_id):
         rep.fail(ro.qualname, 'rule-inlines-call', 'the rule `start = ident` is optimised into the body of `ident` (or of the rule ident refers to): invoking `start` no longer '
                  'invokes `ident`', ro.loc)
     return rep
+
+
+RULE_FIELDS = ('name', 'params', 'kwparams', 'decorators', 'base', 'is_name', 'is_tokn', 'no_memo', 'no_stak', 'is_memo', 'is_lrec')
+
+
+def rule_and_grammar_optimized(a, rule_id):
+    """Rule.optimized / Grammar.optimized: what every parse runs on is the grammar that was written, rule by rule."""
+    from ..modelinterp import Bound
+    rep = RuleReport(
+        rule_id,
+        'the optimised grammar every parse (and every generated parser) runs on has the rules that were written: Rule.optimized, interpreted '
+        'on stand-in rules over 14 body shapes x 3 flag settings, returns a rule with the same name, parameters, keyword parameters, '
+        'decorators, base and flags (is_name, is_tokn, no_memo, no_stak, is_memo, is_lrec) whose body equals the written body modulo the '
+        'rewrites valid in PEG (C01.R11), and leaves the rule it was called on as it was; Grammar.optimized, interpreted on a stand-in '
+        'grammar, returns the rules in the written order, each under its own name with its own body, does not change the grammar it was '
+        'called on, and answers a second call with the same object',
+        floor=30,
+    )
+    RULE, GRAMMAR = 'tatsu.peg.base.Rule', 'tatsu.peg.base.Grammar'
+    ro, go = a.ct.lookup(RULE, 'optimized'), a.ct.lookup(GRAMMAR, 'optimized')
+    if ro is None or go is None:
+        raise AnalysisError(f'{rule_id}: Rule.optimized / Grammar.optimized not found')
+    tk = lambda c: Stub(Q['Token'], token=c)  # noqa: E731
+    sq = lambda *xs: Stub(Q['Sequence'], sequence=list(xs))  # noqa: E731
+    gr = lambda x: Stub(Q['Group'], exp=x)  # noqa: E731
+    ch = lambda *opts: Stub(Q['Choice'], options=[Stub(Q['Option'], exp=o) for o in opts])  # noqa: E731
+    bodies = {
+        "'a'": lambda: tk('a'), "sequence of one: 'a'": lambda: sq(tk('a')), "('a')": lambda: gr(tk('a')), "('a' 'b')": lambda: gr(sq(tk('a'), tk('b'))),
+        "'a' 'b'": lambda: sq(tk('a'), tk('b')), "(('a'))": lambda: gr(gr(tk('a'))), "('a' | 'b')": lambda: gr(ch(tk('a'), tk('b'))),
+        "x:'a'": lambda: Stub(Q['Named'], name='x', exp=tk('a')), "(x:'a')": lambda: gr(Stub(Q['Named'], name='x', exp=tk('a'))),
+        "{'a'}": lambda: Stub(Q['Closure'], exp=tk('a')), "['a']": lambda: Stub(Q['Optional'], exp=tk('a')), 'call of r (unresolved)': lambda: _call(),
+        "('a') 'b'": lambda: sq(gr(tk('a')), tk('b')), "'a' ~ 'b' | 'c'": lambda: ch(sq(tk('a'), Stub(Q['Cut']), tk('b')), tk('c')),
+    }
+    flagsets = [
+        dict(params=(), kwparams={}, decorators=[], base=None, is_name=False, is_tokn=False, no_memo=False, no_stak=False, is_memo=True, is_lrec=False),
+        dict(params=('P', 1), kwparams={'k': 'v'}, decorators=['name', 'nomemo'], base='basis', is_name=True, is_tokn=False, no_memo=True, no_stak=True, is_memo=False, is_lrec=True),
+        dict(params=(), kwparams={}, decorators=['override'], base=None, is_name=False, is_tokn=True, no_memo=False, no_stak=False, is_memo=True, is_lrec=True),
+    ]
+
+    def interp():
+        it = ModelInterp(a, {'copy': Hook(_copy), 'typename': Hook(lambda o: o._cls.split('.')[-1] if isinstance(o, Stub) else type(o).__name__)})
+        for nm in ('Group', 'Choice', 'Sequence'):
+            it.globals[nm] = Hook((lambda nm=nm: (lambda *p, **k: Stub(Q[nm], **({'exp': (p[0] if p else k.get('exp'))} if nm == 'Group' else
+                                                                              {'options': (p[0] if p else k.get('options'))} if nm == 'Choice' else
+                                                                              {'sequence': (p[0] if p else k.get('sequence'))}))))(), q=Q[nm])
+        it.globals['Call'] = Hook(lambda name=None, **k: Stub(Q['Call'], name=name, _rule=None), q=Q['Call'])
+        return it
+
+    def mk_rule(name, body, fl):
+        r = Stub(RULE, name=name, exp=body, _lookahead=None, **{k: (list(v) if isinstance(v, list) else dict(v) if isinstance(v, dict) else v) for k, v in fl.items()})
+        r._attrs['lookahead'] = Hook(lambda *x, **k: frozenset())
+        return r
+
+    for bname, mk in bodies.items():
+        for i, fl in enumerate(flagsets):
+            rule = mk_rule('r1', mk(), fl)
+            before = ir(rule._attrs['exp'])
+            body_obj = rule._attrs['exp']
+            try:
+                got = interp().call_bound(Bound(rule, ro), [], {})
+            except Unsupported as e:
+                raise AnalysisError(f'{rule_id}: cannot interpret Rule.optimized on the body {bname}: {e}') from e
+            if not isinstance(got, Stub) or got._cls != RULE:
+                rep.add({'body': bname, 'flags': i, 'result': repr(got)[:60], 'ok': False})
+                rep.fail(ro.qualname, f'rule-optimized:{bname}:not-a-rule', f'Rule.optimized of `r1 = {bname}` returns {got!r}, not a rule', ro.loc)
+                continue
+            after = ir(got._attrs['exp']) if isinstance(got._attrs.get('exp'), Stub) else ('<not a model>', repr(got._attrs.get('exp')))
+            same_body = normal(before) == normal(after)
+            changed = [f for f in RULE_FIELDS if got._attrs.get(f) != ({'name': 'r1', **fl}[f])]
+            untouched = rule._attrs['exp'] is body_obj and ir(rule._attrs['exp']) == before and all(rule._attrs.get(f) == {'name': 'r1', **fl}[f] for f in RULE_FIELDS)
+            ok = same_body and not changed and untouched and got is not rule
+            rep.add({'body': bname, 'flags': i, 'optimized_body': repr(after)[:100], 'same_expression': same_body, 'fields_changed': changed, 'original_untouched': untouched, 'ok': ok})
+            if not same_body:
+                rep.fail(ro.qualname, f'rule-optimized:{bname}', f'Rule.optimized turns the body of `r1 = {bname}` from {normal(before)} into {normal(after)}: the parse runs on a '
+                         f'rule that accepts / consumes / returns differently from the rule that was written', ro.loc)
+            if changed:
+                rep.fail(ro.qualname, f'rule-optimized-fields:{",".join(changed)}', f'Rule.optimized of a rule with {fl} returns a rule whose {changed} differ '
+                         f'({ {f: got._attrs.get(f) for f in changed} }): the optimised grammar runs the rule under other parameters / flags than the written one', ro.loc)
+            if not untouched or got is rule:
+                rep.fail(ro.qualname, f'rule-optimized-mutates:{bname}', f'Rule.optimized changes (or returns) the rule it was called on (`r1 = {bname}`): the written grammar is '
+                         f'altered by preparing a parse', ro.loc)
+    # Grammar.optimized
+    r_a, r_b, r_c = mk_rule('gamma', gr(tk('a')), flagsets[0]), mk_rule('alpha', sq(tk('b')), flagsets[1]), mk_rule('beta', _call(), flagsets[2])
+    rules_before = (r_a, r_b, r_c)
+    inits = []
+    g = Stub(GRAMMAR, name='G', rules=rules_before, directives={'left_recursion': True}, keywords=['k'], _optimized=None)
+    g._attrs['initialize'] = Hook(lambda *x, **k: inits.append(1))
+
+    def gcopy(x):
+        y = _copy(x)
+        if isinstance(y, Stub) and y._cls == GRAMMAR:
+            y._attrs['initialize'] = Hook(lambda *x_, **k: inits.append(1))
+        return y
+    it = interp()
+    it.globals['copy'] = Hook(gcopy)
+    try:
+        g1 = it.call_bound(Bound(g, go), [], {})
+        g2 = it.call_bound(Bound(g, go), [], {})
+        g3 = it.call_bound(Bound(g1, go), [], {}) if isinstance(g1, Stub) else None
+    except Unsupported as e:
+        raise AnalysisError(f'{rule_id}: cannot interpret Grammar.optimized: {e}') from e
+    ok_type = isinstance(g1, Stub) and g1._cls == GRAMMAR
+    names = [r._attrs.get('name') for r in g1._attrs.get('rules', ())] if ok_type else None
+    bodies_ok = ok_type and names == ['gamma', 'alpha', 'beta'] and all(
+        normal(ir(n._attrs['exp'])) == normal(ir(o._attrs['exp'])) for n, o in zip(g1._attrs['rules'], rules_before))
+    kept = ok_type and g1._attrs.get('directives') == {'left_recursion': True} and g1._attrs.get('keywords') == ['k'] and g1._attrs.get('name') == 'G'
+    orig_ok = g._attrs['rules'] is rules_before and all(x is y for x, y in zip(g._attrs['rules'], (r_a, r_b, r_c)))
+    rep.add({'Grammar.optimized': 'three rules (gamma, alpha, beta)', 'rule_names': names, 'bodies_equal': bodies_ok, 'directives_keywords_name_kept': kept,
+             'original_rules_untouched': orig_ok, 'second_call_same_object': g2 is g1, 'optimized_of_optimized_same_object': g3 is g1, 'initialized': len(inits)})
+    if not ok_type or names != ['gamma', 'alpha', 'beta'] or not bodies_ok:
+        rep.fail(go.qualname, 'grammar-optimized:rules', f'Grammar.optimized of a grammar with the rules gamma, alpha, beta returns the rules {names} '
+                 f'(bodies equal: {bodies_ok}): the parse runs on other rules, or in another order (the first rule is the default start rule), than written', go.loc)
+    if ok_type and not kept:
+        rep.fail(go.qualname, 'grammar-optimized:settings', 'Grammar.optimized loses the name, directives or keywords of the grammar', go.loc)
+    if not orig_ok:
+        rep.fail(go.qualname, 'grammar-optimized:mutates', 'Grammar.optimized replaces the rules of the grammar it was called on', go.loc)
+    if ok_type and (g2 is not g1 or g3 is not g1):
+        rep.fail(go.qualname, 'grammar-optimized:cache', 'a second Grammar.optimized() (or optimized() of the optimised grammar) builds another grammar: parses on the '
+                 'same model stop sharing the analysed rules (and each parse pays the whole analysis again)', go.loc)
+    if ok_type and not inits:
+        rep.fail(go.qualname, 'grammar-optimized:initialize', 'Grammar.optimized does not initialize() the optimised copy: its rule map, left-recursion marks and lookahead sets '
+                 'are those of the unoptimised rules', go.loc)
+    return rep
